@@ -130,12 +130,31 @@ def c18_request_bytes(req, path="/p"):
 
 
 def c18_app_reply(app, start_response):
-    """WSGI behaviour of one scripted app entry (status bytes | int, headers, clen, pieces, retval)"""
-    status, headers, clen, pieces, retval = app
-    hs = [(n.decode("latin-1"), v.decode("latin-1")) for n, v in headers]
-    if clen is not None:
-        hs.append(("Content-Length", str(clen)))
-    start_response(status if isinstance(status, int) else status.decode("latin-1"), hs)
+    """WSGI behaviour of one scripted app entry (status bytes | int, headers, clen, pieces, retval[, (restarts, written)]).
+    restarts: earlier start_response calls [(status, headers, clen)] made before the final one — every call after the first passes
+    exc_info (the PEP 3333 error restart, legal as long as nothing has been written); written: non-empty pieces the app hands to the
+    write() callable returned by start_response before it returns its iterable"""
+    status, headers, clen, pieces, retval = app[:5]
+    restarts, written = app[5] if len(app) > 5 else ([], [])
+
+    def call(st, hd, cl, exc):
+        hs = [(n.decode("latin-1"), v.decode("latin-1")) for n, v in hd]
+        if cl is not None:
+            hs.append(("Content-Length", str(cl)))
+        st = st if isinstance(st, int) else st.decode("latin-1")
+        return start_response(st, hs, exc) if exc else start_response(st, hs)
+    exc = None
+    for st, hd, cl in restarts:
+        call(st, hd, cl, exc)
+        try:
+            raise RuntimeError("app changed its mind")
+        except RuntimeError:
+            import sys
+            exc = sys.exc_info()
+    write = call(status, headers, clen, exc)
+    exc = None
+    for w in written:
+        write(w)
 
     def gen():
         for p in pieces:
@@ -532,12 +551,34 @@ def c19_run(case):
     try:
         cls = SClientTls if secure else SClient
         connector = cls(ha=(HOST, port0), tymth=tymist.tymen())
-        client = clienting.Client(connector=connector, hostname=HOST, port=port0)
-        client.reopen()
-        n_first = max(1, len(reqs) - min(late, len(reqs))) if reqs else 0
+        # who owns the queues (derived from the case so that it stays a plain literal): 0 the Client's own; 1 containers the CALLER made
+        # (empty at construction) and keeps using — it appends request dicts to its own deque and reads entries from its own deque;
+        # 2 caller containers that are NOT empty at construction: the requests deque already holds the first batch, the responses deque
+        # (shared with a second, idle Client) already holds an older entry
+        from collections import deque
+        cmode = (len(reqs) + len(servers[0][2])) % 3
+        own_requests, own_responses, own_redirects, own_events = deque(), deque(), list(), deque()
+        SENTINEL = dict(sentinel=True)
 
+        def reqdict(k):
+            method, path, body = allreqs[k][:3]
+            qa = allreqs[k][3] if len(allreqs[k]) > 3 else []
+            return dict(method=method.decode("ascii"), path=path.decode("utf-8"), qargs=dict((a.decode("utf-8"), b.decode("utf-8")) for a, b in (qa or [])),
+                        headers={"X-Req": str(k)}, body=bytes(body), reply=k)
         allreqs = list(reqs) + second
-
+        n_first = max(1, len(reqs) - min(late, len(reqs))) if reqs else 0
+        if cmode == 2:
+            for k in range(n_first):
+                own_requests.append(reqdict(k))
+            own_responses.append(SENTINEL)
+        if cmode == 0:
+            client = clienting.Client(connector=connector, hostname=HOST, port=port0)
+        else:
+            client = clienting.Client(connector=connector, hostname=HOST, port=port0, requests=own_requests, responses=own_responses,
+                                      redirects=own_redirects, events=own_events)
+            other = clienting.Client(connector=cls(ha=(HOST, port0), tymth=tymist.tymen()), hostname=HOST, port=port0, responses=own_responses)
+        responses = client.responses if cmode == 0 else own_responses     # the caller reads ITS deque
+        client.reopen()
         def queue(k):
             method, path, body = allreqs[k][:3]
             qa = allreqs[k][3] if len(allreqs[k]) > 3 else []
@@ -546,16 +587,20 @@ def c19_run(case):
                 kw["path"] = path.decode("utf-8")
             if qa is not None:          # None = no qargs=: the requester's stored query arguments
                 kw["qargs"] = dict((a.decode("utf-8"), b.decode("utf-8")) for a, b in qa)
-            client.request(**kw)
-        for k in range(n_first):
-            queue(k)
+            if cmode and path and qa is not None:
+                own_requests.append(reqdict(k))         # the documented way: the caller appends to the deque it handed in
+            else:
+                client.request(**kw)
+        if cmode != 2:
+            for k in range(n_first):
+                queue(k)
         queued = n_first
         idle = 0
         phase = 0
         waited_trace = []
         budget = 120 + 2 * sum(8 + r[4] + len(r[5]) for _, _, rs in servers for r in rs) + 20 * (len(reqs) + len(second))
         for cyc in range(budget):
-            before = (len(client.responses), len(client.requests), client.waited, sum(len(s.sent) for _, s in world.socks),
+            before = (len(responses), len(client.requests), client.waited, sum(len(s.sent) for _, s in world.socks),
                       sum(len(s.inbox) + len(s.timeline) for _, s in world.socks))
             try:
                 client.service()
@@ -571,11 +616,11 @@ def c19_run(case):
             world.note_read()
             world.tick()
             tymist.tick()
-            if queued < len(reqs) and client.responses:
+            if queued < len(reqs) and len(responses) > (1 if cmode == 2 else 0):
                 while queued < len(reqs):
                     queue(queued)
                     queued += 1
-            after = (len(client.responses), len(client.requests), client.waited, sum(len(s.sent) for _, s in world.socks),
+            after = (len(responses), len(client.requests), client.waited, sum(len(s.sent) for _, s in world.socks),
                      sum(len(s.inbox) + len(s.timeline) for _, s in world.socks))
             idle = idle + 1 if before == after else 0
             if idle >= 12:
@@ -592,7 +637,12 @@ def c19_run(case):
     finally:
         tcp.Client, tcp.ClientTls = RealClient, RealClientTls
     entries = []
-    for r in client.responses:
+    sentinel_ok = True
+    if cmode == 2:
+        sentinel_ok = bool(responses) and responses[0] is SENTINEL
+    for r in responses:
+        if r is SENTINEL:
+            continue
         rq = r["request"]
         entries.append(dict(status=r["status"], body=bytes(r["body"]), errored=bool(r["errored"]), tag=rq.get("reply"),
                             method=rq.get("method"), path=rq.get("path"), rbody=bytes(rq.get("body") or b""),
@@ -605,9 +655,9 @@ def c19_run(case):
         wire.append((p, tls, parts[0], parts[1] if len(parts) > 1 else b"", b))
         m = re.search(rb"\r\nx-req: (\d+)\r\n", h, flags=re.I)
         rids.append(int(m.group(1)) if m else -1)
-    out.update(entries=entries, wire=wire, rids=rids, served=list(world.served), overlap=world.overlap,
+    out.update(entries=entries, wire=wire, rids=rids, cmode=cmode, sentinel_ok=sentinel_ok, served=list(world.served), overlap=world.overlap,
                insecure_bytes=sum(len(sk.sent) for _, sk in world.socks if not sk.tls),
-               waited=bool(client.waited), left=len(client.requests) + (len(reqs) + (len(second) if phase == 1 else 0) - queued), phase=phase, sent_to=dict(world.sent_to), unknown=list(world.unknown_target),
+               waited=bool(client.waited), left=len(client.requests if cmode == 0 else own_requests) + (len(reqs) + (len(second) if phase == 1 else 0) - queued), phase=phase, sent_to=dict(world.sent_to), unknown=list(world.unknown_target),
                conns=[p for p, _ in world.socks])
     return out
 
